@@ -7,8 +7,10 @@ CONSTANTS
   MaxFail = 2
   MaxKill = 1
   Eager = FALSE
+  CloseErr = TRUE
+  Defect_LateCloseUnderLock = FALSE
   Defect_AddDeadConn = FALSE
   Mut = "none"
-INVARIANTS TypeOK SizeBound OneFiller ClosedEmpty ReportedNotInPool NoStray NoLeakAfterClose PoolConnsAlive
+INVARIANTS TypeOK NoSelfDeadlock SizeBound OneFiller ClosedEmpty ReportedNotInPool NoStray NoLeakAfterClose PoolConnsAlive
 PROPERTIES FillEnds AllClosedEventually CloseReturns
 CHECK_DEADLOCK FALSE
